@@ -118,10 +118,8 @@ def _cmp_recs(ob, a, b, what, where, same_term):
             same_term(ob, ra[1], rb[1], '%s, segment %d: exits (returned value / rejecting returns and their conditions)' % (what, i), where)
             for k in sorted(set(ra[2]) | set(rb[2])):
                 if k not in ra[2] or k not in rb[2]:
-                    if k in rb[2]:
-                        ob.require(False, '%s, segment %d: variable %s of the reference is not computed' % (what, i, k), where)
-                    else:
-                        ob.note('%s: extra temporary %s' % (what, k))
+                    # a temporary that exists on one side only is not a difference by itself: what it feeds is compared
+                    ob.note('%s, segment %d: temporary %s exists only in %s' % (what, i, k, 'the reference' if k in rb[2] else 'the repository'))
                     continue
                 same_term(ob, ra[2][k], rb[2][k], '%s, segment %d: value of %s' % (what, i, k), where)
         else:
